@@ -14,16 +14,19 @@ type VC = *vsched.Chan[int]
 
 // VFuncs are the wrappers of the fixed package after rewriting onto vsched, by wrapper name.
 type VFuncs struct {
-	Fmap     map[string]func(f func(int) int, in VC) VC
-	FmapCh   func(f func(int) VC, in VC) *vsched.Chan[VC]
-	Dup      map[string]func(c VC) (VC, VC)
-	JoinCC   map[string]func(in *vsched.Chan[VC]) VC
-	JoinSC   map[string]func(in []VC) VC
-	JoinV    map[string]func(cs []VC) VC // select form, 2, 3, 5 and 6 channels
-	Pipeline func(f func(int) VC, g func(int) VC) func(int) VC
-	Do2      map[string]func(f0, f1 func() (int, error)) (int, int, error)
-	Do3      map[string]func(f0, f1, f2 func() (int, error)) (int, int, int, error)
-	Do4      func(f0, f1, f2, f3 func() (int, error)) (int, int, int, int, error)
+	Fmap      map[string]func(f func(int) int, in VC) VC
+	FmapCh    func(f func(int) VC, in VC) *vsched.Chan[VC]
+	Dup       map[string]func(c VC) (VC, VC)
+	JoinCC    map[string]func(in *vsched.Chan[VC]) VC
+	JoinSC    map[string]func(in []VC) VC
+	JoinV     map[string]func(cs []VC) VC // select form, 2, 3, 5 and 6 channels
+	Pipeline  func(f func(int) VC, g func(int) VC) func(int) VC
+	PipelineB func(f func(int) VC, g func(int) VC) func(int) VC // stages returning bidirectional channels
+	A         VOps[any]                                         // package concpkgi: fmap and dup over interface{} streams
+	E         VOps[error]                                       // package concpkgi: the join forms and pipeline over error streams
+	Do2       map[string]func(f0, f1 func() (int, error)) (int, int, error)
+	Do3       map[string]func(f0, f1, f2 func() (int, error)) (int, int, int, error)
+	Do4       func(f0, f1, f2, f3 func() (int, error)) (int, int, int, int, error)
 }
 
 // the cancellation family of error values (Config.Errs codes 101..103)
@@ -92,6 +95,8 @@ var roleOf = map[string]string{
 	"deriveJoinCC": "join", "deriveJoinCCb": "join", "deriveJoinSC": "join", "deriveJoinSCb": "join",
 	"deriveJoinV2": "joinsel", "deriveJoinV3": "joinsel", "deriveJoinV5": "joinsel", "deriveJoinV6": "joinsel",
 	"deriveDo2": "do", "deriveDo3": "do", "deriveDo4": "do", "deriveDo2b": "do", "deriveDo3b": "do", "deriveDo3m": "do",
+	"deriveJoinCCbb": "join", "deriveJoinPb": "join", "deriveFmapPb": "fmap",
+	"deriveFmapA": "fmap", "deriveDupA": "dup", "deriveJoinCCe": "join", "deriveJoinSCe": "join", "deriveJoinV2e": "joinsel", "deriveFmapPe": "fmap",
 }
 
 func canonName(s string) string {
@@ -115,28 +120,6 @@ func CanonLog(log []vsched.Event) []vsched.Event {
 	return out
 }
 
-func producer(ch VC, items []int) func() {
-	return func() {
-		for _, v := range items {
-			ch.Send(v)
-		}
-		ch.Close()
-	}
-}
-
-func consumer(out VC, o *Outcome, k int) func() {
-	return func() {
-		for {
-			v, ok := out.Recv()
-			if !ok {
-				o.SawClose[k] = true
-				return
-			}
-			o.Got[k] = append(o.Got[k], v)
-		}
-	}
-}
-
 // VBody returns the body of virtual goroutine 0 for the configuration: it builds the environment,
 // calls the (rewritten) emitted function and starts the consumers.
 func VBody(F *VFuncs, c Config, o *Outcome) (func(), error) {
@@ -145,29 +128,34 @@ func VBody(F *VFuncs, c Config, o *Outcome) (func(), error) {
 		nOut = 2
 	}
 	o.Got, o.SawClose = make([][]int, nOut), make([]bool, nOut)
-	mkIns := func() []VC {
+	mkIns := func() []VC { // fmapch only (int streams)
 		ins := make([]VC, len(c.Items))
 		for i := range ins {
-			name := "in" + strconv.Itoa(i)
-			if c.Sys == "fmap" || c.Sys == "dup" || c.Sys == "fmapch" {
-				name = "in"
-			}
-			ins[i] = vsched.Make[int](name, c.Caps[i]).SetTag(i)
-			vsched.Spawn("prod"+strconv.Itoa(i), producer(ins[i], c.Items[i]))
+			ins[i] = vsched.Make[int]("in", c.Caps[i]).SetTag(i)
+			vsched.Spawn("prod"+strconv.Itoa(i), producerT(ins[i], c.Items[i], IntCodec.Enc))
 		}
 		return ins
 	}
 	switch c.Sys {
-	case "fmap":
-		fn := F.Fmap[c.Variant]
-		if fn == nil {
-			break
+	case "fmap", "dup", "joincc", "joinsc", "joinsel", "pipeline":
+		// generic in the element type of the streams (generic.go)
+		var body func()
+		switch {
+		case IsIface(c.Variant) && (c.Sys == "fmap" || c.Sys == "dup"):
+			body = vChanBody(F.A, AnyCodec, c, o)
+		case IsIface(c.Variant):
+			body = vChanBody(F.E, ErrCodec, c, o)
+		default:
+			pl := F.Pipeline
+			if c.Variant == "PipelineB" {
+				pl = F.PipelineB
+			}
+			body = vChanBody(VOps[int]{Fmap: F.Fmap[c.Variant], Dup: F.Dup[c.Variant], JoinCC: F.JoinCC[c.Variant],
+				JoinSC: F.JoinSC[c.Variant], JoinV: F.JoinV[c.Variant], Pipeline: pl}, IntCodec, c, o)
 		}
-		return func() {
-			ins := mkIns()
-			out := fn(F3, ins[0])
-			vsched.Spawn("cons0", consumer(out, o, 0))
-		}, nil
+		if body != nil {
+			return body, nil
+		}
 	case "fmapch":
 		if F.FmapCh == nil {
 			break
@@ -192,90 +180,6 @@ func VBody(F *VFuncs, c Config, o *Outcome) (func(), error) {
 					o.Got[0] = append(o.Got[0], ch.VTag())
 				}
 			})
-		}, nil
-	case "dup":
-		fn := F.Dup[c.Variant]
-		if fn == nil {
-			break
-		}
-		return func() {
-			ins := mkIns()
-			o1, o2 := fn(ins[0])
-			vsched.Spawn("cons0", consumer(o1, o, 0))
-			vsched.Spawn("cons1", consumer(o2, o, 1))
-		}, nil
-	case "joincc":
-		fn := F.JoinCC[c.Variant]
-		if fn == nil {
-			break
-		}
-		return func() {
-			ins := mkIns()
-			outer := vsched.Make[VC]("outer", c.OCap)
-			seq := ins
-			if c.Slice != nil {
-				seq = make([]VC, len(c.Slice))
-				for p, j := range c.Slice {
-					seq[p] = ins[j]
-				}
-			}
-			vsched.Spawn("oprod", func() {
-				for _, ch := range seq {
-					outer.Send(ch)
-				}
-				outer.Close()
-			})
-			out := fn(outer)
-			vsched.Spawn("cons0", consumer(out, o, 0))
-		}, nil
-	case "joinsc":
-		fn := F.JoinSC[c.Variant]
-		if fn == nil {
-			break
-		}
-		return func() {
-			ins := mkIns()
-			if c.NilSlice && len(ins) == 0 {
-				ins = nil
-			}
-			if c.Slice != nil {
-				sl := make([]VC, len(c.Slice))
-				for p, j := range c.Slice {
-					sl[p] = ins[j]
-				}
-				ins = sl
-			}
-			out := fn(ins)
-			vsched.Spawn("cons0", consumer(out, o, 0))
-		}, nil
-	case "joinsel":
-		fn := F.JoinV[c.Variant]
-		if fn == nil || len(c.Items) != SelArity(c.Variant) {
-			break
-		}
-		return func() {
-			ins := mkIns()
-			out := fn(ins)
-			vsched.Spawn("cons0", consumer(out, o, 0))
-		}, nil
-	case "pipeline":
-		return func() {
-			f := func(a int) VC {
-				b := vsched.Make[int]("b", c.OCap)
-				idx := make([]int, len(c.Items))
-				for i := range idx {
-					idx[i] = i
-				}
-				vsched.Spawn("bprod", producer(b, idx))
-				return b
-			}
-			g := func(x int) VC {
-				ch := vsched.Make[int]("in"+strconv.Itoa(x), c.Caps[x]).SetTag(x)
-				vsched.Spawn("prod"+strconv.Itoa(x), producer(ch, c.Items[x]))
-				return ch
-			}
-			out := F.Pipeline(f, g)(0)
-			vsched.Spawn("cons0", consumer(out, o, 0))
 		}, nil
 	case "do":
 		return func() {
